@@ -169,7 +169,12 @@ def run_case(case, rec):
             if op == "div":
                 return getop("_div_%s" % mode)(tt, x, u, params)
             if op == "veclap":
-                return getop("_vectorial_laplacian")(tt, x, u, params, u_vec_ndim=n_out)
+                # the component count is an integer however it is spelled (Python int, numpy integer)
+                hv = case["seed"] + d + 2 * with_t + n_out + (mode == "fwd") + (case["fam"] == "mono")
+                nv = (n_out, np.int64(n_out), np.int32(n_out))[hv % 3]
+                if n_out == d and hv % 4 == 3:
+                    nv = None
+                return getop("_vectorial_laplacian")(tt, x, u, params, u_vec_ndim=nv)
             if op == "adv":
                 fn = getop("_u_dot_nabla_times_u_%s" % mode)
                 if fn is None:
